@@ -19,6 +19,10 @@ const Config cfgs[] = {
   {"ms/stamp", make_int<MS<rc::STAMP>>},
   // non-default backoff policies (policy::backoff is part of every container's configuration space)
   {"ms/backoff_exp2/ebr0", make_int<xenium::michael_scott_queue<int, xenium::policy::reclaimer<rc::EBR<0>>, xenium::policy::backoff<xenium::exponential_backoff<2>>>>},
+  {"ms/backoff_exp2/lfrc_tl2", make_int<xenium::michael_scott_queue<int, xenium::policy::reclaimer<rc::LFRC_TL2>, xenium::policy::backoff<xenium::exponential_backoff<2>>>>},
+  {"ms/backoff_single/he_s2_0_0", make_int<xenium::michael_scott_queue<int, xenium::policy::reclaimer<rc::HE_S<2, 0, 0>>, xenium::policy::backoff<xenium::single_backoff>>>},
+  {"ms/backoff_single/nebr1", make_int<xenium::michael_scott_queue<int, xenium::policy::reclaimer<rc::NEBR<1>>, xenium::policy::backoff<xenium::single_backoff>>>},
+  {"ms/backoff_single/lfrc", make_int<xenium::michael_scott_queue<int, xenium::policy::reclaimer<rc::LFRC>, xenium::policy::backoff<xenium::single_backoff>>>},
   {"ms/backoff_single/hp_s2_0_0", make_int<xenium::michael_scott_queue<int, xenium::policy::reclaimer<rc::HP_S<2, 0, 0>>, xenium::policy::backoff<xenium::single_backoff>>>},
 };
 QueueHarness h("queues_ms", cfgs, sizeof(cfgs) / sizeof(cfgs[0]));
